@@ -378,6 +378,10 @@ pub fn c15(tier: Tier, seed: u64) -> Prop {
         ("C07", decode::c07(Tier::Quick, seed).units),
         ("C08", ea::c08(Tier::Quick, seed).units),
         ("C20", charge::c20(Tier::Quick, seed).units),
+        // cross-form sequences with forced collisions over the whole encoding table (victims: every implemented form,
+        // and every unimplemented one), so that state carried from one instruction into another is also run under "no unwind"
+        ("xC20", super::xseq::units("C20", Tier::Quick)),
+        ("xC07", super::xseq::units("C07", Tier::Quick)),
     ];
     for (p, us) in borrowed {
         for u in us {
